@@ -31,17 +31,17 @@ func dumpWrites(c *Ctx) {
 
 func init() {
 	register(&Rule{
-		ID: "C20.no-payload-write", Prop: "C20", Floor: 60, Controls: 2,
+		ID: "C20.no-payload-write", Prop: "C20", Also: []string{"C07", "C05", "C03"}, Floor: 60, Controls: 2,
 		Doc: "no function writes (store, map update, in-place append, copy, delete, math/big mutator, sort, or a callee that writes through its parameter) to memory reached through an immutable payload field (Value.v, marker.realV/marks, unknownType.refinement, the typeImpl records) of anything it did not allocate itself",
 		Run: runNoPayloadWrite,
 	})
 	register(&Rule{
-		ID: "C20.no-global-write", Prop: "C20", Floor: 60, Controls: 1,
+		ID: "C20.no-global-write", Prop: "C20", Also: []string{"C16", "C15", "C02"}, Floor: 60, Controls: 1,
 		Doc: "outside package initialisers no function writes a package-level variable or memory loaded from one (nothing shared is written after init)",
 		Run: runNoGlobalWrite,
 	})
 	register(&Rule{
-		ID: "C20.closure-state", Prop: "C20", Floor: 20, Controls: 1,
+		ID: "C20.closure-state", Prop: "C20", Also: []string{"C08", "C09"}, Floor: 20, Controls: 1,
 		Doc: "a closure that escapes its creator (returned, or stored) does not assign or write through its captured variables; deferred, immediately invoked and callback closures are exempt",
 		Run: runClosureState,
 	})
